@@ -71,6 +71,9 @@ type c46Case struct {
 	Outs  []c46Out `json:"outs"`
 	Slots []int    `json:"-"` // partition: slot of element I (may be out of range)
 	OOR   int      `json:"partition_out_of_range,omitempty"`
+
+	monMu sync.Mutex
+	mons  []*c46Mon
 }
 
 func (c *c46Case) describe() string {
@@ -222,7 +225,71 @@ func (c *c46Case) source(s int, stop <-chan struct{}) Source[c46El] {
 	default:
 		src = Of(in...)
 	}
-	return c46Flow(src, c.Srcs[s].Flow)
+	return c46Monitored(c, c46Flow(src, c.Srcs[s].Flow))
+}
+
+// c46Mon wraps a stage actor and records whether it handled a stream-protocol message
+// before its stageWire (when its upstream/downstream PIDs are still nil). It only
+// observes; the label refines the signature of violations found by the oracle.
+type c46Mon struct {
+	inner      actor.Actor
+	started    atomic.Bool
+	wired      atomic.Bool
+	early      atomic.Int64
+	firstEarly atomic.Value // string
+}
+
+func (m *c46Mon) PreStart(ctx *actor.Context) error {
+	m.started.Store(true)
+	return m.inner.PreStart(ctx)
+}
+
+func (m *c46Mon) PostStop(ctx *actor.Context) error { return m.inner.PostStop(ctx) }
+
+func (m *c46Mon) Receive(rctx *actor.ReceiveContext) {
+	switch rctx.Message().(type) {
+	case *stageWire:
+		m.wired.Store(true)
+	case *streamElement, *streamRequest, *streamComplete, *streamError, *streamCancel:
+		if !m.wired.Load() {
+			m.early.Add(1)
+			m.firstEarly.CompareAndSwap(nil, fmt.Sprintf("%T", rctx.Message()))
+		}
+	}
+	m.inner.Receive(rctx)
+}
+
+// c46Monitored wraps every stage actor of src in a c46Mon registered with the case.
+func c46Monitored[T any](c *c46Case, src Source[T]) Source[T] {
+	stages := make([]*stage, len(src.stages))
+	for i, st := range src.stages {
+		m := &c46Mon{}
+		c.monMu.Lock()
+		c.mons = append(c.mons, m)
+		c.monMu.Unlock()
+		cp := *st
+		orig := st.actorFn
+		cp.actorFn = func(cfg StageConfig) actor.Actor {
+			m.inner = orig(cfg)
+			return m
+		}
+		stages[i] = &cp
+	}
+	return Source[T]{stages: stages}
+}
+
+// earlyFacts reports the stage actors that handled a message before their wiring.
+func (c *c46Case) earlyFacts() []string {
+	c.monMu.Lock()
+	defer c.monMu.Unlock()
+	var facts []string
+	for i, m := range c.mons {
+		if m.started.Load() && m.early.Load() > 0 {
+			what, _ := m.firstEarly.Load().(string)
+			facts = append(facts, fmt.Sprintf("monitored stage %d (%T) handled %d stream message(s) before its stageWire (first: %s)", i, m.inner, m.early.Load(), what))
+		}
+	}
+	return facts
 }
 
 // c46Sink is one consumer with its collected elements.
@@ -379,7 +446,7 @@ func (c *c46Case) run(sys actor.ActorSystem) c46Outcome {
 	t0 := time.Now()
 	runOne := func(src Source[c46El], out c46Out) bool {
 		k, sink := c46NewSink[c46El](out)
-		h, err := c46Flow(src, out.Flow).To(sink).Run(ctx, sys)
+		h, err := c46Monitored(c, c46Flow(src, out.Flow)).To(sink).Run(ctx, sys)
 		if err != nil {
 			o.RunErr = err
 			return false
@@ -390,7 +457,7 @@ func (c *c46Case) run(sys actor.ActorSystem) c46Outcome {
 	}
 	runZip := func(src Source[[]c46El], out c46Out) bool {
 		k, sink := c46NewSink[[]c46El](out)
-		h, err := src.To(sink).Run(ctx, sys)
+		h, err := c46Monitored(c, src).To(sink).Run(ctx, sys)
 		if err != nil {
 			o.RunErr = err
 			return false
@@ -538,12 +605,29 @@ func (c *c46Case) judge(r *verifrt.Run, o c46Outcome) {
 		}
 		return d
 	}
+	facts := c.earlyFacts()
+	if len(facts) > 0 {
+		baseDetail := detail
+		detail = func(extra map[string]any) map[string]any {
+			d := baseDetail(extra)
+			d["protocol_monitor"] = facts
+			return d
+		}
+	}
 	if o.RunErr != nil {
+		if strings.Contains(o.RunErr.Error(), "wire stage") && strings.Contains(o.RunErr.Error(), "not alive") {
+			r.Violation("run-failed:wire-stage-actor-not-alive", detail(map[string]any{"run_err": o.RunErr.Error()}))
+			return
+		}
 		r.Violation("run-failed:"+c.Kind, detail(map[string]any{"run_err": o.RunErr.Error()}))
 		return
 	}
 	if o.Stuck != "" {
-		r.Violation("graph-never-completes:"+o.StuckMode+":"+c.Kind, detail(map[string]any{"stuck": o.Stuck}))
+		sig := "graph-never-completes:" + o.StuckMode + ":" + c.Kind
+		if len(facts) > 0 {
+			sig = "graph-never-completes:" + o.StuckMode + ":msg-before-wire"
+		}
+		r.Violation(sig, detail(map[string]any{"stuck": o.Stuck}))
 		return
 	}
 	if !o.Done {
@@ -809,6 +893,9 @@ func TestVerif_C46(t *testing.T) {
 			r.Count("elements_in", int64(total))
 			r.Count("elements_delivered", int64(delivered))
 			r.Count("partition_out_of_range_results", int64(c.OOR))
+			if len(c.earlyFacts()) > 0 {
+				r.Count("graphs_where_a_stage_handled_a_message_before_its_wiring", 1)
+			}
 			if slow {
 				r.Count("graphs_with_a_slow_consumer", 1)
 			}
